@@ -55,6 +55,10 @@ func TestVerif_C15_HistoryModel(t *testing.T) {
 					cur = cur.Add(step)
 					k++
 					e := ent{fmt.Sprintf("id%d", k), rapid.SampledFrom([]string{"u1", "u2", "u3"}).Draw(t, "src"), cur, fmt.Sprintf("v%d", k)}
+					if len(model) > 0 && rapid.IntRange(0, 3).Draw(t, "reuseId") == 0 {
+						// message ids are chosen by the senders: the same id may be used by several of them
+						e.id = model[rapid.IntRange(0, len(model)-1).Draw(t, "reused")].id
+					}
 					u := e.src
 					g.AddToChatHistory(e.id, e.src, &u, e.tm, "", e.val)
 					model = append(model, e)
@@ -71,6 +75,9 @@ func TestVerif_C15_HistoryModel(t *testing.T) {
 					continue
 				}
 				e := model[rapid.IntRange(0, len(model)-1).Draw(t, "which")]
+				if rapid.IntRange(0, 3).Draw(t, "otherSender") == 0 {
+					e.src = rapid.SampledFrom([]string{"u1", "u2", "u3", "nobody"}).Draw(t, "wrongSrc")
+				}
 				g.ClearChatHistory(e.id, e.src)
 				var m2 []ent
 				for _, x := range model {
